@@ -43,16 +43,16 @@ type vFix struct {
 }
 
 type vFixOpts struct {
-	mode        string // "zstd" | "uncompressed"
-	maxBlob     int64
-	maxSize     int64
-	mangle      bool
-	validateAC  bool
-	depsCheck   bool
-	extra       []disk.Option
-	hardLimit   int64
-	dir         string // reuse an existing cache directory (restart); "" = fresh
-	zstdImpl    string // "" = go
+	mode       string // "zstd" | "uncompressed"
+	maxBlob    int64
+	maxSize    int64
+	mangle     bool
+	validateAC bool
+	depsCheck  bool
+	extra      []disk.Option
+	hardLimit  int64
+	dir        string // reuse an existing cache directory (restart); "" = fresh
+	zstdImpl   string // "" = go
 }
 
 var vSilent = log.New(io.Discard, "", 0)
